@@ -298,4 +298,61 @@ theorem planOK_of_setup (ch : EbChoices) (g : Geometry) (md : Option GeometryMet
   rw [hitem] at hV ⊢
   exact { toDescOK := hD, toParamOK := hP, toValuesOK := hV }
 
+/-- the value block an item recorded -/
+theorem encodeItem_block (ch : EbChoices) (o : EbOpts) (g : Geometry) (e : Nat) (mdata : MeshData) (pids : Array Nat)
+    (parent : Option ParentAtt) (s : SeqEncSt) (pt : Array Int × Bytes) (it : EncItem)
+    (h : encodeItem ch o g e mdata pids parent s pt = .ok it) (hk : s.kind ≠ 0) :
+    ∃ b, it.block = some b ∧ b.attId = s.attId ∧ b.kind = s.kind ∧
+      b.nc = (if s.kind == 3 then 2 else (g.atts.toArray[s.attId]!).numComponents) ∧
+      b.md = mdata ∧ b.pointIds = pids ∧ b.parent = parent ∧ b.portable = pt.1 ∧ it.portable = pt.1 ∧
+      it.valueBytes = b.bytes ∧
+      encodeIntegerValuesEb ch o.base b.attId b.kind b.nc b.numValues b.scheme b.md b.pointIds b.parent b.portable =
+        .ok (b.outScheme, b.bytes) := by
+  unfold encodeItem at h
+  simp only [] at h
+  have hk0 : (s.kind == 0) = false := by simpa using hk
+  rw [hk0] at h
+  simp only [Bool.false_eq_true, if_false] at h
+  rw [bind_ok_iff] at h
+  obtain ⟨⟨sch, vb⟩, hrun, h⟩ := h
+  simp only [pure, Except.pure, Except.ok.injEq] at h
+  subst h
+  exact ⟨_, rfl, rfl, rfl, rfl, rfl, rfl, rfl, rfl, rfl, rfl, hrun⟩
+
+/-- **value condition of an item from the checked value-block theorem**: for an item of kind 1–3 whose recorded block
+    passes `valueBlockHypsIso` against the decoder's view / sequence / parent, with both traversal runs -/
+theorem valuesOK_of_item (ch : EbChoices) (o : EbOpts) (g : Geometry) (e : Nat) (viewE : TView) (seqE : SeqOut)
+    (parent : Option ParentAtt) (s : SeqEncSt) (pt : Array Int × Bytes) (it : EncItem)
+    (h : encodeItem ch o g e ⟨viewE, seqE.d2c, seqE.v2d⟩ seqE.pointIds parent s pt = .ok it)
+    (mesh : Mesh) (d : DecoderItem) (parentD : Option Parent)
+    (hraw : s.kind = 0 → it.valueBytes.length =
+      d.n * (dataTypeLength (g.atts.toArray[s.attId]!).dataType * (g.atts.toArray[s.attId]!).numComponents))
+    (processed psi back cback facesD facesE v2dInit : Array Nat) (v2dSize : Nat)
+    (hchk : s.kind ≠ 0 → ∀ b, it.block = some b →
+      valueBlockHypsIso ch o.base b (viewOfDecoder mesh d.dec) d.seq parentD (phiOf processed) psi back cback = [] ∧
+      processed.size = (viewOfDecoder mesh d.dec).numFaces ∧
+      TraversalRuns (viewOfDecoder mesh d.dec) viewE facesD facesE processed v2dInit v2dSize d.seq seqE) :
+    ValuesOK mesh d parentD (itemOf o g.atts.toArray it) := by
+  obtain ⟨hid, hkind⟩ := encodeItem_ids ch o g e _ _ _ _ _ _ h
+  constructor
+  · intro h0
+    show it.valueBytes.length = d.n * (dataTypeLength (descOf _).dataType * (descOf _).numComponents)
+    rw [hid]
+    exact hraw (by rw [← hkind]; exact h0)
+  · intro hne
+    have hne' : s.kind ≠ 0 := by rw [← hkind]; exact hne
+    obtain ⟨b, hb, b1, b2, b3, b4, b5, b6, b7, b8, b9, b10⟩ := encodeItem_block ch o g e _ _ _ _ _ _ h hne'
+    obtain ⟨hy, hsize, htrav⟩ := hchk hne' b hb
+    have hbt : b.md.t = viewE := by rw [b4]
+    have := value_block_checked_iso ch o.base b (descOf (g.atts.toArray[it.attId]!)).numComponents
+      (viewOfDecoder mesh d.dec) d.seq seqE parentD processed psi back cback facesD facesE v2dInit v2dSize hy hsize
+      (by rw [hbt]; exact htrav) (by rw [b4]) b5 b10
+    show Runs (decodeIntegerValuesEb it.kind d.n (if it.kind == 3 then 2 else (descOf _).numComponents)
+      (descOf _).numComponents _ _ _) 514 it.valueBytes (it.portable, TransformData.none) 514
+    rw [b9, b8, ← b7, hkind, ← b2]
+    have hnc : (if b.kind == 3 then 2 else (descOf (g.atts.toArray[it.attId]!)).numComponents) = b.nc := by
+      rw [b3, b2, hid]; rfl
+    rw [hnc]
+    exact this
+
 end Draco.EbEnc
